@@ -628,7 +628,18 @@ def families(pid, tier):
     return out
 
 
+def dedup(hs):
+    seen = set()
+    out = []
+    for h in hs:
+        if h.name not in seen:
+            seen.add(h.name)
+            out.append(h)
+    return out
+
+
 def render(hs):
+    hs = dedup(hs)
     s = "#![allow(unused, unused_mut, unused_parens, unused_braces, static_mut_refs, clippy::all)]\n"
     s += "pub mod support;\npub use support::*;\nuse join::*;\n\n"
     for h in hs:
@@ -1684,4 +1695,4 @@ def native_families(pid, tier):
                 for depth2 in (False, True):
                     for pos in ("end", "mid"):
                         out.append(_handler_harness(pid, mac, hk, n, depth2, pos))
-    return out
+    return dedup(out)
